@@ -124,7 +124,7 @@ class C20(Prop):
             plan["raw"] = {"status": t.choice([200, 201, 404, 299]), "reason": t.choice(["OK", "Fine", "Whatever You Say"]),
                            "headers": t.choice(RAW_HEADER_SETS), "chunks": [t.choice([b"a", b"bb", b"", b"chunk", b"x" * 70000]) for _ in range(t.draw(4))],
                            "as_list": t.draw(2) == 0, "omit_headers_key": t.draw(5) == 0, "class_based": t.draw(4) == 0,
-                           "headers_as_generator": t.draw(4) == 0, "reused_buffer": t.draw(4) == 0,
+                           "headers_as_generator": t.draw(4) == 0, "reused_buffer": t.draw(4) == 0, "empty_body": t.draw(4) == 0,
                            # an ASGI app that uses the zero-copy extension itself (when offered): (seek position, offset, count) per message
                            "zc": t.choice([None, None, [(7, None, None)], [(0, 100, 50), (3, None, 20)], [(40, None, 10), (0, None, None)],
                                            # pos None = no seek before this message: it continues where the previous one stopped
@@ -227,6 +227,8 @@ class C20(Prop):
                         counter["inner"] += 1
                         n = counter["inner"]
                         self.start("%d %s" % (raw["status"], raw["reason"]), list(raw["headers"]) + [("X-Run", str(n))])
+                        if raw.get("empty_body"):
+                            return              # an answer without a body (204, 304, HEAD): nothing is ever yielded
                         for c in raw["chunks"]:
                             yield c
                         yield b"run %d" % n
